@@ -157,6 +157,19 @@ func auditStruct(t *Type, rv reflect.Value, m map[string]any, path string, o Aud
 					lt, lv = lt.Elem, lv.Elem()
 				}
 				if lt.K.IsLeaf() {
+					// a value taken from the environment is held against the declared constraints like a document value
+					if len(f.O.Options) > 0 {
+						if fd := auditOptions(f, lt.K, ev, p); fd != nil {
+							fd.Sig = "C05:options-not-enforced:" + lt.K.Class() + "<-env"
+							return fd
+						}
+					}
+					if f.O.Range != nil && lt.K.IsNum() {
+						if fd := auditRange(f, false, ev, p); fd != nil {
+							fd.Sig = "C05:range-not-enforced:env"
+							return fd
+						}
+					}
 					if fd := auditLeaf(lt.K, lv, ev, "env", p); fd != nil {
 						return fd
 					}
